@@ -71,3 +71,106 @@ Theorem C01_to_t4_cell_emptyref_refuted :
             forall sigma b, ~ Vden sigma (vols s) 1 b.
 Proof. exact emptyref_refuted. Qed.
 Print Assumptions C01_to_t4_cell_emptyref_refuted.
+
+From T4V Require Import C01.ProofsCells C01.ProofsPrune.
+
+(* convert_cellref (any fuel) meets the specification that C01_to_t4_cell_sound
+   assumed, when [cden] is the region of every cell of the table and the cells'
+   surfaces are well formed (ids <> 0, facets >= 1).  The tree handed to
+   pot_to_t4_cell by pot_flag/pot_expand_surfs/pot_optimise has distinct fresh
+   node ids (proved inside: flag_ids, expand_ok, optimise_ids). *)
+Theorem C01_convert_cellref : forall sigma cden cells matching u0 u1,
+  0 < u0 -> 0 < u1 -> consistent sigma u0 u1 ->
+  (forall c g orig, lookup c cells = Some (g, orig) ->
+     leaves_ok (msurf_ok matching) g /\ cden c = mden sigma cden matching g) ->
+  forall fuel c s r s', convert_cellref fuel cells matching u0 u1 c s = Ok (r, s') -> inv s ->
+  extends (vols s) (vols s') /\ cnt s <= cnt s' /\ inv s' /\ bound [] s s' /\
+  (nonone (vols s') -> sem sigma cden s -> sem sigma cden s' /\ rden sigma (vols s') r (cden c)).
+Proof.
+  intros sigma cden cells matching u0 u1 H0 H1 Hc Hok fuel c s r s' H Hi.
+  exact (convert_cellref_spec sigma cden cells matching u0 u1 H0 H1 Hc Hok fuel c s r s' H Hi
+           (fresh_nil s)).
+Qed.
+Print Assumptions C01_convert_cellref.
+
+(* the table left by construct_volume_t4's loop (pot_convert of every cell of the
+   conversion list from the empty state, root copied under the cell number,
+   fictive = False).  If no operand is None: each listed cell k has a
+   non-FICTIVE volume numbered k that denotes the cell, or has no volume and is
+   empty at sigma; and every non-FICTIVE volume is a listed cell. *)
+Theorem C01_cells : forall sigma cden cells matching u0 u1 fuel todo cnt0 s',
+  0 < u0 -> 0 < u1 -> consistent sigma u0 u1 ->
+  (forall c g orig, lookup c cells = Some (g, orig) ->
+     leaves_ok (msurf_ok matching) g /\ cden c = mden sigma cden matching g) ->
+  NoDup todo -> (forall k, In k todo -> k <= cnt0) ->
+  convert_cells fuel cells matching u0 u1 todo (mkSt cnt0 [] [] []) = Ok s' ->
+  no_none (vols s') = true ->
+  (forall k, In k todo ->
+     (exists v, lookup k (vols s') = Some v /\ v_fict v = false /\ Vden sigma (vols s') k (cden k)) \/
+     (lookup k (vols s') = None /\ cden k = false)) /\
+  (forall k v, lookup k (vols s') = Some v -> v_fict v = false -> In k todo).
+Proof.
+  intros sigma cden cells matching u0 u1 fuel todo cnt0 s' H0 H1 Hc Hok Hnd Hle H Hnn.
+  exact (cells_table sigma cden cells matching u0 u1 H0 H1 Hc Hok fuel todo cnt0 s' Hnd Hle H Hnn).
+Qed.
+Print Assumptions C01_cells.
+
+(* the property on that table: if the cell c owns sigma and no other converted
+   cell contains sigma (the MCNP cells partition the sense assignments), then
+   sigma lies in exactly one emitted non-FICTIVE volume, numbered c, when c is in
+   the conversion list (importance <> 0), and in none otherwise.
+   PARTIAL: stated for the table before renumber_surfaces / remove_empty_volumes /
+   remove_unused_volumes and the writer; C01_prune_sound_partial carries it
+   through renumber_surfaces and remove_unused_volumes, remove_empty_volumes is
+   tied and swept only. *)
+Theorem C01_partition_partial : forall sigma cden cells matching u0 u1 fuel todo cnt0 s' c,
+  0 < u0 -> 0 < u1 -> consistent sigma u0 u1 ->
+  (forall c g orig, lookup c cells = Some (g, orig) ->
+     leaves_ok (msurf_ok matching) g /\ cden c = mden sigma cden matching g) ->
+  NoDup todo -> (forall k, In k todo -> k <= cnt0) ->
+  convert_cells fuel cells matching u0 u1 todo (mkSt cnt0 [] [] []) = Ok s' ->
+  no_none (vols s') = true ->
+  cden c = true -> (forall c', In c' todo -> cden c' = true -> c' = c) ->
+  (In c todo -> forall k, in_volume sigma (vols s') k <-> k = c) /\
+  (~ In c todo -> forall k, ~ in_volume sigma (vols s') k).
+Proof.
+  intros sigma cden cells matching u0 u1 fuel todo cnt0 s' c H0 H1 Hc Hok Hnd Hle H Hnn Hown Huniq.
+  exact (partition sigma cden cells matching u0 u1 H0 H1 Hc Hok fuel todo cnt0 s' c Hnd Hle H Hnn Hown Huniq).
+Qed.
+Print Assumptions C01_partition_partial.
+
+(* renumber_surfaces (for a sigma that gives merged surfaces the same sense) and
+   remove_unused_volumes keep the denotation of every surviving volume; every
+   non-FICTIVE volume survives remove_unused_volumes, which deletes only FICTIVE
+   volumes that nothing references.
+   PARTIAL: remove_empty_volumes (the iterated deletion of patently empty
+   volumes) is modelled, tied and swept but not proved. *)
+Theorem C01_prune_sound_partial : forall sigma,
+  (forall rn d d', renumber rn d = Ok d' -> respects sigma rn ->
+     forall id b, Vden sigma d id b -> Vden sigma d' id b) /\
+  (forall d id v b, lookup id d = Some v -> v_fict v = false -> Vden sigma d id b ->
+     lookup id (remove_unused d) = Some v /\ Vden sigma (remove_unused d) id b) /\
+  (forall d id b, Vden sigma d id b ->
+     (forall v, lookup id d = Some v -> keep d (id, v) = true) -> Vden sigma (remove_unused d) id b) /\
+  (forall d id v, lookup id d = Some v -> lookup id (remove_unused d) = None ->
+     v_fict v = true /\ mem id (used_ids d) = false) /\
+  (forall d id v, lookup id (remove_unused d) = Some v -> In (id, v) d).
+Proof.
+  intros sigma. split; [exact (renumber_den sigma)|]. split; [exact (remove_unused_nonfictive sigma)|].
+  split; [exact (remove_unused_den sigma)|]. split; [exact remove_unused_deleted | exact remove_unused_sub].
+Qed.
+Print Assumptions C01_prune_sound_partial.
+
+(* non-vacuity: five cells (three converted, one of importance 0, one filler kept
+   by reference), a union without pure-intersection member, a surface of
+   reversed side; every hypothesis of C01_cells / C01_partition_partial holds *)
+Example C01_example :
+  (forall sigma c g orig, lookup c ex_cells = Some (g, orig) ->
+     leaves_ok (msurf_ok ex_matching) g /\
+     ex_cden sigma c = mden sigma (ex_cden sigma) ex_matching g) /\
+  (forall sigma, exists c, In c [10; 20; 30; 40] /\ ex_cden sigma c = true /\
+     forall c', In c' [10; 20; 30; 40] -> ex_cden sigma c' = true -> c' = c) /\
+  (exists s', convert_cells 6 ex_cells ex_matching 6 7 ex_todo (mkSt 50 [] [] []) = Ok s' /\
+     no_none (vols s') = true /\ NoDup ex_todo /\ (forall k, In k ex_todo -> k <= 50) /\
+     map fst (filter (fun kv => negb (v_fict (snd kv))) (vols s')) = [10; 20; 30]).
+Proof. split; [exact ex_cells_ok|]. split; [exact ex_partition | exact ex_run]. Qed.
